@@ -19,14 +19,14 @@ CONSTANTS MaxLen,        \* cookie values have 0..MaxLen characters
           Zones,         \* set of UTC offsets in seconds (east positive) - the server process's time zone
           Nows, Deltas   \* instants (epoch seconds) and requested expiry deltas
 
-Classes == {"t", "k", "sp", "o", "q", "b"}
+Classes == {"t", "k", "sp", "o", "q", "b", "d3"}     \* "d3": three octal digits (token characters that look like an escape after a backslash)
 \* a character is <<class, id>> so that distinct characters of one class stay distinguishable
 Chars == {<<c, i>> : c \in Classes, i \in 1..1}
 Values == UNION {[1..n -> Chars] : n \in 0..MaxLen}
 
 DQ == <<"dq", <<"q", 0>>>>      \* the delimiting double quote, same shape as the other output symbols
-Legal(v) == v # <<>> /\ \A i \in 1..Len(v) : v[i][1] = "t"
-QuoteChar(c) == IF c[1] \in {"t", "k", "sp"} THEN <<"raw", c>> ELSE IF c[1] = "o" THEN <<"oct", c>> ELSE <<"esc", c>>
+Legal(v) == v # <<>> /\ \A i \in 1..Len(v) : v[i][1] \in {"t", "d3"}
+QuoteChar(c) == IF c[1] \in {"t", "k", "sp", "d3"} THEN <<"raw", c>> ELSE IF c[1] = "o" THEN <<"oct", c>> ELSE <<"esc", c>>
 Quote(v) == IF Legal(v) THEN [i \in 1..Len(v) |-> <<"raw", v[i]>>]
             ELSE <<DQ>> \o [i \in 1..Len(v) |-> QuoteChar(v[i])] \o <<DQ>>
 
@@ -35,7 +35,7 @@ Unquote(w) == IF Len(w) < 2 \/ w[1] # DQ \/ w[Len(w)] # DQ THEN [i \in 1..Len(w)
               ELSE [i \in 1..(Len(w) - 2) |-> w[i + 1][2]]
 
 \* what travels in the header must not contain a raw separator or control character, and is ASCII
-RawSafe(w) == \A i \in 1..Len(w) : w[i][1] = "raw" => w[i][2][1] \in {"t", "k", "sp"}
+RawSafe(w) == \A i \in 1..Len(w) : w[i][1] = "raw" => w[i][2][1] \in {"t", "k", "sp", "d3"}
 \* request side: value.strip() removes outer spaces - inside quotes they survive
 Strip(w) == w   \* (a quoted string starts and ends with DQ; an unquoted legal one has no spaces)
 
